@@ -77,6 +77,10 @@ add("C03", "hist+vsched+vos", "enumeration of every crash point between persiste
     "For 11 (quick) / 28 (thorough) pre-state histories x 3 build targets the real Load+Run executes under the controlled scheduler with os redirected to an effect-announcing shim: the directory at each of the ~20-60 effect points (record temp create/write/rename, mkdir, index truncate/write, each emit of a two-step body) and each torn prefix of in-place writes is a crash state (quick: default linearisation; thorough: all schedules with <=1 preemption, capped). From every distinct crash state: Load must succeed with and without the index, and a breadth-first search of depth 2 (3) over builds and edits must end every successful build with a current closure (unfinished/failed executions count as not executed) and outputs equal to a from-scratch build. Failure patterns of bodies are in the pre-states and alphabet.",
     HIST_NOTE + " Crash model = process death (no power-loss reordering), as the property states.", "DESIGN.md sections 3.4, 5 C03")
 
+add("C08", "enum", "bounded-exhaustive enumeration of BUILD-file programs from a feature grammar (singles + pairs) through the real loader in worker processes; fingerprint equality/inequality oracle",
+    "46 features (every value kind incl. cyclic and >1000-element data, defaults, closures, nested defs/lambdas, helpers in the same/loaded/second-level module, direct, mutual and loaded recursion, self-reference, other target objects, every predeclared kind, bound methods, flags, varargs) alone and in pairs (quick: a quarter of the pairs): each program is loaded twice at different roots (and in another OS process), its function environment must be computed without error or crash, be equal across loads with byte-equal encodings, differ after each of its listed single edits; build + rebuild executes once then nothing; after each edit the rebuild reason must name exactly the environment parts that differ.",
+    "A dead worker (Go's stack overflow is fatal) is attributed to the program it was loading. Equality of environments with cyclic data is decided through their (deterministic) encodings.", "DESIGN.md section 5 C08")
+
 NA = {
 }
 for i in range(1, 21):
